@@ -25,6 +25,7 @@ import (
 	"path/filepath"
 	"reflect"
 	"runtime"
+	"sort"
 	"strconv"
 	"strings"
 	"sync"
@@ -1732,12 +1733,49 @@ func (t *Transaction) AssertedDatasets() []string {
 }
 
 func (s *Store) ExecuteTransaction(transaction *Transaction) error {
-	datasets := make(map[string]*Dataset)
+	updateCountsPerDataset, err := s.executeTransactionLocked(transaction)
+	if err != nil {
+		return err
+	}
 
-	for k := range transaction.DatasetEntities {
-		dataset, ok := s.datasets.Load(k)
+	// update the txn counts. The write locks of the transaction are released by now: updating the
+	// count of a dataset writes to core.Dataset, which would block forever on its own lock if
+	// core.Dataset is one of the datasets of the transaction. Each count update is still done
+	// under the lock of its dataset, as in StoreEntities.
+	for k, v := range updateCountsPerDataset {
+		ds, ok := s.datasets.Load(k)
 		if !ok {
 			return errors.New("no dataset " + k)
+		}
+
+		ds.(*Dataset).WriteLock.Lock()
+		err = ds.(*Dataset).updateDataset(v, nil)
+		ds.(*Dataset).WriteLock.Unlock()
+		if err != nil {
+			return err
+		}
+	}
+
+	return nil
+}
+
+// executeTransactionLocked writes and commits the transaction while holding the write locks of all
+// its datasets. It returns the number of new items per dataset.
+func (s *Store) executeTransactionLocked(transaction *Transaction) (map[string]int64, error) {
+	datasets := make(map[string]*Dataset)
+
+	// lock the datasets in one global order (by name): two transactions naming the same datasets
+	// must not take the locks in opposite orders
+	datasetNames := make([]string, 0, len(transaction.DatasetEntities))
+	for k := range transaction.DatasetEntities {
+		datasetNames = append(datasetNames, k)
+	}
+	sort.Strings(datasetNames)
+
+	for _, k := range datasetNames {
+		dataset, ok := s.datasets.Load(k)
+		if !ok {
+			return nil, errors.New("no dataset " + k)
 		}
 		datasets[k] = dataset.(*Dataset)
 		s.MetaCtx.RegisterTransactionSink(k)
@@ -1758,7 +1796,7 @@ func (s *Store) ExecuteTransaction(transaction *Transaction) error {
 		entities := transaction.DatasetEntities[k]
 		newItems, err := ds.StoreEntitiesWithTransaction(entities, txnTime, txn)
 		if err != nil {
-			return err
+			return nil, err
 		}
 
 		updateCountsPerDataset[k] = newItems
@@ -1767,28 +1805,15 @@ func (s *Store) ExecuteTransaction(transaction *Transaction) error {
 	verifhook.Point("txn.before-id-commit")
 	err := s.commitIDTxn()
 	if err != nil {
-		return err
+		return nil, err
 	}
 
 	verifhook.Point("txn.before-data-commit")
 	err = txn.Commit()
 	if err != nil {
-		return err
+		return nil, err
 	}
 
 	verifhook.Point("txn.after-data-commit")
-	// update the txn counts
-	for k, v := range updateCountsPerDataset {
-		ds, ok := s.datasets.Load(k)
-		if !ok {
-			return errors.New("no dataset " + k)
-		}
-
-		err = ds.(*Dataset).updateDataset(v, nil)
-		if err != nil {
-			return err
-		}
-	}
-
-	return nil
+	return updateCountsPerDataset, nil
 }
